@@ -100,7 +100,9 @@ def pTerm (fuel : Nat) : P Val := fun toks =>
         | k :: v :: rest => let (ks, vs) := split rest; (k :: ks, v :: vs)
         | _ => ([], [])
       let (ks, vs) := split kvs
-      if sortedKeys ks then pure (.map ty id (Vals.ofList ks) (Vals.ofList vs), r) else none
+      -- maps are canonical lists with bool/integer/string keys only: pointer, interface and struct keys (looked up by identity /
+      -- by ==, not by pointee) are outside the model and rejected here
+      if sortedKeys ks && ks.all (fun k => match k with | .bool .. | .int .. | .str .. => true | _ => false) then pure (.map ty id (Vals.ofList ks) (Vals.ofList vs), r) else none
     | "p" :: ty :: "nil" :: r => some (.nilptr ty, r)
     | "p" :: ty :: addr :: r => do
       let a ← parseNat addr
@@ -362,7 +364,7 @@ def handleS (toks : List String) : Option String :=
     some (go.getD "bad-op")
   | _ => none
 
-def handle (toks : List String) : Option String :=
+def handleEv (toks : List String) : Option String :=
   match handleS toks with
   | some s => some s
   | none =>
@@ -388,5 +390,11 @@ def handle (toks : List String) : Option String :=
       | ob => pure s!"R={showObs ob}"
     some (go.getD "bad-op")
   | _ => none
+
+/-- `c18.mu …` (the probe mutates ONE argument object in place between the Evals) is, to the model, `c18.ev` on independent inputs. -/
+def handle (toks : List String) : Option String :=
+  match toks with
+  | "c18.mu" :: rest => handleEv ("c18.ev" :: rest)
+  | _ => handleEv toks
 
 end Drv.C18
